@@ -260,16 +260,20 @@ class IsolationCase:
     """The same follow-up transaction (a) on fresh handlers, (b) on handlers with a history, (c) next to siblings
     that are in the middle of other transactions."""
 
-    def __init__(self, cfg: Cfg, history, follow_data, follow_faults, seed):
+    def __init__(self, cfg: Cfg, history, follow_data, follow_faults, seed, hist_req=None, follow_req=(None, None)):
         self.cfg, self.history, self.follow_data, self.follow_faults, self.seed = cfg, history, follow_data, follow_faults, seed
+        self.hist_req = hist_req or [(None, None)] * len(history)     # request-level (mode, closure) of each earlier transaction
+        self.follow_req = follow_req
 
     def describe(self):
-        return {"history": self.history, "follow_size": len(self.follow_data), "mode": campaign.eff_mode(self.cfg),
+        return {"history": list(zip(self.history, self.hist_req)), "follow_req": self.follow_req,
+                "follow_size": len(self.follow_data), "mode": campaign.eff_mode(self.cfg),
                 "imm_nak": self.cfg.imm_nak, "faults": [(f.direction, f.index, f.kind, f.arg) for f in self.follow_faults]}
 
     def _follow(self, w, start_ops):
         s0, d0 = len(w.src.ops), len(w.dst.ops)
         t0 = VClock.now
+        w.cfg.req_mode, w.cfg.req_closure = self.follow_req
         start_transfer(w, self.follow_data)
         r = Runner(w, self.follow_faults, max_rounds=200)
         r.run()
@@ -294,8 +298,9 @@ class IsolationCase:
         w = World(cfg, "c11b")
         self.sides = []
         try:
-            for kind in self.history:
+            for kind, (hm, hc_) in zip(self.history, self.hist_req):
                 data = bytes(rng.getrandbits(8) for _ in range(rng.choice([0, 5, 9])))
+                w.cfg.req_mode, w.cfg.req_closure = hm, hc_
                 start_transfer(w, data)
                 r = Runner(w, [], max_rounds=200)
                 if kind == "completed":
@@ -334,6 +339,7 @@ class IsolationCase:
                 while w.dst.get() is not None:
                     pass
                 w.link_s2d.clear(); w.link_d2s.clear()
+            w.advance(rng.choice([0, 3000, 20000]))      # stale timers of earlier transactions would have expired by now
             # the destination file of the follow-up must start from the same filestore state as in (a)
             p = w.pm.to_path(cfg.dst_path)
             if p.exists():
@@ -382,7 +388,7 @@ def _short(x):
 
 def c11_cases(tier, rng):
     kinds = ["completed", "lossy", "cancel_src", "cancel_dst", "abandoned"]
-    n = 40 if tier == "quick" else 400
+    n = 80 if tier == "quick" else 800
     for i in range(n):
         mode = rng.choice([0, 0, 1])
         cfg = campaign.rand_cfg(rng, mode=mode, req_mode=None, ack_ms=1000, nak_ms=1000, check_ms=1000,
@@ -391,8 +397,11 @@ def c11_cases(tier, rng):
         if i < len(kinds):
             hist = [kinds[i]]
         follow = bytes(rng.getrandbits(8) for _ in range(rng.choice([0, 0, 3, 8, 9])))
-        ff = campaign.rand_faults(rng, rng.choice([0, 0, 1]), ("drop", "delay"), span=6) if mode == 0 else []
-        yield IsolationCase(cfg, hist, follow, ff, rng.getrandbits(32))
+        hist_req = [(rng.choice([None, 0, 1]), rng.choice([None, True, False])) for _ in hist]
+        follow_req = (rng.choice([None, 0, 1]), rng.choice([None, True, False]))
+        fmode = follow_req[0] if follow_req[0] is not None else mode
+        ff = campaign.rand_faults(rng, rng.choice([0, 0, 1]), ("drop", "delay"), span=6) if fmode == 0 else []
+        yield IsolationCase(cfg, hist, follow, ff, rng.getrandbits(32), hist_req, follow_req)
 
 
 # ------------------------------------------------------------------ C16: everything through the virtual filestore
